@@ -39,11 +39,19 @@ class SimSocket(object):
     def sendto(self, data, addr):
         if self.closed:
             raise OSError(errno.EBADF, "Bad file descriptor")
+        if self.net.sock_fault is not None:
+            e = self.net.sock_fault("sendto", self)
+            if e is not None:
+                raise e
         self._autobind()
         self.net.send(self, bytes(data), addr)
         return len(data)
 
     def recvfrom(self, n):
+        if self.net.sock_fault is not None:
+            e = self.net.sock_fault("recvfrom", self)
+            if e is not None:
+                raise e
         if not self.queue:
             raise BlockingIOError(errno.EAGAIN, "no datagram")
         return self.queue.pop(0)
@@ -68,6 +76,7 @@ class SimNet(object):
         self.ephemeral = 0
         self.latency = latency
         self.hook = None          # callable(src_node, dst_node, payload) -> list of (fate, delay, payload)
+        self.sock_fault = None    # callable(op, socket) -> exception to raise from sendto/recvfrom, or None
         self.log = []             # (time, src, dst, fate, payload)
         self.keep_log = True
         self.cond = kmod.SimCondition(k, kmod.SimRLock(k))
